@@ -10,6 +10,9 @@ Keys.vos Keys.vok Keys.required_vos: Keys.v Base.vos
 ArenaProofs.vo ArenaProofs.glob ArenaProofs.v.beautified ArenaProofs.required_vo: ArenaProofs.v Base.vo Arena.vo
 ArenaProofs.vio: ArenaProofs.v Base.vio Arena.vio
 ArenaProofs.vos ArenaProofs.vok ArenaProofs.required_vos: ArenaProofs.v Base.vos Arena.vos
+Ctors.vo Ctors.glob Ctors.v.beautified Ctors.required_vo: Ctors.v Base.vo Arena.vo ArenaProofs.vo
+Ctors.vio: Ctors.v Base.vio Arena.vio ArenaProofs.vio
+Ctors.vos Ctors.vok Ctors.required_vos: Ctors.v Base.vos Arena.vos ArenaProofs.vos
 Rodeo.vo Rodeo.glob Rodeo.v.beautified Rodeo.required_vo: Rodeo.v Arena.vo
 Rodeo.vio: Rodeo.v Arena.vio
 Rodeo.vos Rodeo.vok Rodeo.required_vos: Rodeo.v Arena.vos
@@ -55,6 +58,9 @@ ConcTheorems.vos ConcTheorems.vok ConcTheorems.required_vos: ConcTheorems.v Base
 Bridge.vo Bridge.glob Bridge.v.beautified Bridge.required_vo: Bridge.v Base.vo Arena.vo ArenaProofs.vo Rodeo.vo RodeoInv.vo RodeoProofs.vo ThreadedInv.vo CloneSerdeProofs.vo ThreadedProofs.vo IterEqProofs.vo WorldProofs.vo Conc.vo ConcInv.vo ConcArenaProofs.vo ConcInternProofs.vo ConcTheorems.vo
 Bridge.vio: Bridge.v Base.vio Arena.vio ArenaProofs.vio Rodeo.vio RodeoInv.vio RodeoProofs.vio ThreadedInv.vio CloneSerdeProofs.vio ThreadedProofs.vio IterEqProofs.vio WorldProofs.vio Conc.vio ConcInv.vio ConcArenaProofs.vio ConcInternProofs.vio ConcTheorems.vio
 Bridge.vos Bridge.vok Bridge.required_vos: Bridge.v Base.vos Arena.vos ArenaProofs.vos Rodeo.vos RodeoInv.vos RodeoProofs.vos ThreadedInv.vos CloneSerdeProofs.vos ThreadedProofs.vos IterEqProofs.vos WorldProofs.vos Conc.vos ConcInv.vos ConcArenaProofs.vos ConcInternProofs.vos ConcTheorems.vos
+ConcAlloc.vo ConcAlloc.glob ConcAlloc.v.beautified ConcAlloc.required_vo: ConcAlloc.v Base.vo Arena.vo ArenaProofs.vo Conc.vo ConcInv.vo ConcArenaProofs.vo Rodeo.vo RodeoInv.vo RodeoProofs.vo ThreadedInv.vo CloneSerdeProofs.vo ThreadedProofs.vo IterEqProofs.vo WorldProofs.vo
+ConcAlloc.vio: ConcAlloc.v Base.vio Arena.vio ArenaProofs.vio Conc.vio ConcInv.vio ConcArenaProofs.vio Rodeo.vio RodeoInv.vio RodeoProofs.vio ThreadedInv.vio CloneSerdeProofs.vio ThreadedProofs.vio IterEqProofs.vio WorldProofs.vio
+ConcAlloc.vos ConcAlloc.vok ConcAlloc.required_vos: ConcAlloc.v Base.vos Arena.vos ArenaProofs.vos Conc.vos ConcInv.vos ConcArenaProofs.vos Rodeo.vos RodeoInv.vos RodeoProofs.vos ThreadedInv.vos CloneSerdeProofs.vos ThreadedProofs.vos IterEqProofs.vos WorldProofs.vos
 Sync.vo Sync.glob Sync.v.beautified Sync.required_vo: Sync.v 
 Sync.vio: Sync.v 
 Sync.vos Sync.vok Sync.required_vos: Sync.v 
@@ -88,6 +94,9 @@ Props/C03.vos Props/C03.vok Props/C03.required_vos: Props/C03.v Base.vos Arena.v
 Props/C04.vo Props/C04.glob Props/C04.v.beautified Props/C04.required_vo: Props/C04.v Base.vo Arena.vo ArenaProofs.vo Rodeo.vo RodeoInv.vo RodeoProofs.vo ThreadedInv.vo CloneSerdeProofs.vo ThreadedProofs.vo IterEqProofs.vo WorldProofs.vo
 Props/C04.vio: Props/C04.v Base.vio Arena.vio ArenaProofs.vio Rodeo.vio RodeoInv.vio RodeoProofs.vio ThreadedInv.vio CloneSerdeProofs.vio ThreadedProofs.vio IterEqProofs.vio WorldProofs.vio
 Props/C04.vos Props/C04.vok Props/C04.required_vos: Props/C04.v Base.vos Arena.vos ArenaProofs.vos Rodeo.vos RodeoInv.vos RodeoProofs.vos ThreadedInv.vos CloneSerdeProofs.vos ThreadedProofs.vos IterEqProofs.vos WorldProofs.vos
+Props/C04D.vo Props/C04D.glob Props/C04D.v.beautified Props/C04D.required_vo: Props/C04D.v Base.vo Arena.vo ArenaProofs.vo Conc.vo ConcInv.vo ConcArenaProofs.vo ConcAlloc.vo Rodeo.vo RodeoInv.vo WorldProofs.vo
+Props/C04D.vio: Props/C04D.v Base.vio Arena.vio ArenaProofs.vio Conc.vio ConcInv.vio ConcArenaProofs.vio ConcAlloc.vio Rodeo.vio RodeoInv.vio WorldProofs.vio
+Props/C04D.vos Props/C04D.vok Props/C04D.required_vos: Props/C04D.v Base.vos Arena.vos ArenaProofs.vos Conc.vos ConcInv.vos ConcArenaProofs.vos ConcAlloc.vos Rodeo.vos RodeoInv.vos WorldProofs.vos
 Props/C05.vo Props/C05.glob Props/C05.v.beautified Props/C05.required_vo: Props/C05.v Base.vo Arena.vo Conc.vo ConcInv.vo ConcArenaProofs.vo
 Props/C05.vio: Props/C05.v Base.vio Arena.vio Conc.vio ConcInv.vio ConcArenaProofs.vio
 Props/C05.vos Props/C05.vok Props/C05.required_vos: Props/C05.v Base.vos Arena.vos Conc.vos ConcInv.vos ConcArenaProofs.vos
@@ -103,9 +112,9 @@ Props/C06B.vos Props/C06B.vok Props/C06B.required_vos: Props/C06B.v Base.vos Are
 Props/C07.vo Props/C07.glob Props/C07.v.beautified Props/C07.required_vo: Props/C07.v Base.vo Arena.vo ArenaProofs.vo Rodeo.vo RodeoInv.vo RodeoProofs.vo ThreadedInv.vo CloneSerdeProofs.vo ThreadedProofs.vo IterEqProofs.vo WorldProofs.vo
 Props/C07.vio: Props/C07.v Base.vio Arena.vio ArenaProofs.vio Rodeo.vio RodeoInv.vio RodeoProofs.vio ThreadedInv.vio CloneSerdeProofs.vio ThreadedProofs.vio IterEqProofs.vio WorldProofs.vio
 Props/C07.vos Props/C07.vok Props/C07.required_vos: Props/C07.v Base.vos Arena.vos ArenaProofs.vos Rodeo.vos RodeoInv.vos RodeoProofs.vos ThreadedInv.vos CloneSerdeProofs.vos ThreadedProofs.vos IterEqProofs.vos WorldProofs.vos
-Props/C08.vo Props/C08.glob Props/C08.v.beautified Props/C08.required_vo: Props/C08.v Base.vo Arena.vo ArenaProofs.vo
-Props/C08.vio: Props/C08.v Base.vio Arena.vio ArenaProofs.vio
-Props/C08.vos Props/C08.vok Props/C08.required_vos: Props/C08.v Base.vos Arena.vos ArenaProofs.vos
+Props/C08.vo Props/C08.glob Props/C08.v.beautified Props/C08.required_vo: Props/C08.v Base.vo Arena.vo ArenaProofs.vo Ctors.vo
+Props/C08.vio: Props/C08.v Base.vio Arena.vio ArenaProofs.vio Ctors.vio
+Props/C08.vos Props/C08.vok Props/C08.required_vos: Props/C08.v Base.vos Arena.vos ArenaProofs.vos Ctors.vos
 Props/C09.vo Props/C09.glob Props/C09.v.beautified Props/C09.required_vo: Props/C09.v Base.vo Arena.vo Conc.vo ConcInv.vo ConcArenaProofs.vo ConcTheorems.vo
 Props/C09.vio: Props/C09.v Base.vio Arena.vio Conc.vio ConcInv.vio ConcArenaProofs.vio ConcTheorems.vio
 Props/C09.vos Props/C09.vok Props/C09.required_vos: Props/C09.v Base.vos Arena.vos Conc.vos ConcInv.vos ConcArenaProofs.vos ConcTheorems.vos
